@@ -11,6 +11,7 @@ import (
 	"sync/atomic"
 	"time"
 
+	"github.com/getlantern/bytemap"
 	"github.com/getlantern/wal"
 )
 
@@ -129,4 +130,12 @@ func verifCoalesced(t *table, n int) {
 			return
 		}
 	}
+}
+
+// VerifPartitionFor returns the partition the given dimensions are routed to
+// under the given partition keys (the leader's routing function).
+func (db *DB) VerifPartitionFor(dims map[string]interface{}, partitionKeys []string) int {
+	keys := append([]string(nil), partitionKeys...)
+	_, sorted := sortedPartitionKeys(keys)
+	return db.partitionFor(partitionHash(), bytemap.New(dims), sorted)
 }
